@@ -174,7 +174,9 @@ def floors(case, dt):
     rotation composition, and the Euler angles are returned in degrees (ulp of 360 deg = 1e-15 rad)."""
     n = case['T'] / dt
     eps = np.finfo(float).eps
-    return (64 * eps * 6.4e6 * np.sqrt(n) + 1e-9,
+    # a constant small increment added n times to a latitude/longitude stored in degrees rounds the same way every
+    # time: worst case half an ulp of 180 deg (1.6e-9 m) per step, linearly accumulated
+    return (max(64 * eps * 6.4e6 * np.sqrt(n), n * np.spacing(180.0) * 1.11e5) + 1e-9,
             64 * eps * 400.0 * np.sqrt(n) + 1e-12,
             64 * eps * np.sqrt(n) + 1e-14)
 
